@@ -761,7 +761,8 @@ Proof.
   assert (Hget : forall r', r' <> n -> get_rec g' r' = get_rec g r').
   { intros r' Hne. unfold get_rec, g', add_rec; cbn. destruct (Nat.lt_ge_cases r' n).
     - now rewrite app_nth1.
-    - rewrite !nth_overflow; auto; [|rewrite app_length; cbn]; fold n; lia. }
+    - rewrite (nth_overflow (g_recs g)) by (fold n; lia).
+      rewrite nth_overflow; [reflexivity|]. rewrite app_length; cbn. fold n. lia. }
   assert (Hnew : get_rec g' n = new_rec).
   { unfold get_rec, g', add_rec; cbn. rewrite app_nth2 by (fold n; lia). fold n. now rewrite Nat.sub_diag. }
   assert (Hold : get_rec g n = dead_rec) by (apply get_rec_ge; fold n; lia).
@@ -894,10 +895,883 @@ Proof.
     destruct cl; exact H2.
   - intros t'. rewrite Hvc. auto.
   - intros r' x H. destruct (i_eff r' x H) as (t' & cl & H1 & H2). exists t', cl. now rewrite Hvc.
-  - intros p. rewrite i_bal. f_equal.
+  - intros p. rewrite i_bal. f_equal. symmetry. apply pend_ext; [reflexivity|]. intros; reflexivity.
   - intros t' sv H. rewrite Hvs in H. eauto.
   - exact i_safe.
   - exact i_kept.
   - intros t' H. specialize (i_idle t' H). unfold a'. vcase t' t; [|exact i_idle].
     destruct i_idle as (E & _). rewrite E in Hheld. destruct Hheld.
+Qed.
+
+(** ** 8. steps on retired arrays: the owner changes its claims, the effective contents, the cells *)
+Definition mild (e : ev) : bool :=
+  (negb (is_cli_named "g_slot" e) && negb (is_cli_named "g_scan_begin" e) && negb (is_cli_named "g_scan_end" e))%bool.
+
+Lemma mild_parts e : mild e = true ->
+  is_cli_named "g_slot" e = false /\ is_cli_named "g_scan_begin" e = false /\ is_cli_named "g_scan_end" e = false.
+Proof.
+  unfold mild. intros H. apply andb_true_iff in H. destruct H as (H & H3). apply andb_true_iff in H.
+  destruct H as (H1 & H2). rewrite negb_true_iff in *. auto.
+Qed.
+
+Lemma slot_at_mild tr t es r j :
+  (forall e, In e es -> mild e = true) -> slot_at (tr ++ Conc.tag t es) r j = slot_at tr r j.
+Proof.
+  intros H. rewrite slot_at_app. generalize (slot_at tr r j). unfold Conc.tag.
+  induction es as [|e es IH]; intros z; cbn; [reflexivity|].
+  rewrite IH by (intros; apply H; now right). f_equal.
+  destruct (mild_parts e (H e (or_introl eq_refl))) as (H1 & _).
+  destruct e as [k o b|n args]; [reflexivity|]. cbn in *.
+  destruct args as [|x [|y [|z' [|w rest]]]]; try reflexivity. now rewrite H1.
+Qed.
+
+Lemma last_sb_mild tr t es t' :
+  (forall e, In e es -> mild e = true) -> last_sb (tr ++ Conc.tag t es) t' = last_sb tr t'.
+Proof.
+  intros H. apply last_sb_app_other. intros te Hin. unfold Conc.tag in Hin.
+  apply in_map_iff in Hin. destruct Hin as (e & <- & He). unfold is_sb. cbn.
+  destruct (mild_parts e (H e He)) as (_ & -> & _). now rewrite andb_false_r.
+Qed.
+
+Lemma cov_cl_mild c a tr t es :
+  cov_cl c a tr -> (forall e, In e es -> mild e = true) -> cov_cl c a (tr ++ Conc.tag t es).
+Proof.
+  intros Hc Hq t' sv Hsv. destruct (Hc t' sv Hsv) as (s & Hs & Hcv & Hsn).
+  exists s. rewrite last_sb_mild by exact Hq. pose proof (last_sb_lt _ _ _ Hs) as Hlt.
+  split; [exact Hs|]. split.
+  - intros r j v Hcov Hv Hh. apply (Hcv r j v Hcov Hv). eapply held_prefix; [lia|exact Hh].
+  - intros v Hv. rewrite app_length. eapply seen_in_mono; [|apply seen_in_ext; [|apply Hsn; exact Hv]]; lia.
+Qed.
+
+Lemma kept_cl_mild tr t es :
+  kept_cl tr -> (forall e, In e es -> mild e = true) -> kept_cl (tr ++ Conc.tag t es).
+Proof.
+  intros Hs Hq. apply kept_cl_ext; [exact Hs|].
+  intros k t' r kept s Hk. apply nth_error_tag in Hk. destruct Hk as (_ & Hk).
+  apply nth_error_In in Hk. destruct (mild_parts _ (Hq _ Hk)) as (_ & _ & H). discriminate.
+Qed.
+
+Definition with_cl (v : lview) (cl : list claim) : lview := mkV (v_rec v) (v_held v) (v_clr v) (v_scan v) cl (v_seen v).
+Definition set_claims (a : Aux) (t : nat) (cl : list claim) (eff : nat -> option (list Z)) : Aux :=
+  mkAux (a_view (upd_view a t (with_cl (view a t) cl))) eff.
+
+Lemma view_set_claims_same a t cl eff : view (set_claims a t cl eff) t = with_cl (view a t) cl.
+Proof. unfold set_claims, view; cbn. now rewrite Nat.eqb_refl. Qed.
+Lemma view_set_claims_other a t cl eff t' : t' <> t -> view (set_claims a t cl eff) t' = view a t'.
+Proof. intros H. unfold set_claims, view; cbn. destruct (Nat.eqb_spec t' t); congruence. Qed.
+Lemma frame_set_claims a t cl eff : Conc.frame view t a (set_claims a t cl eff).
+Proof. intros t' H. now apply view_set_claims_other. Qed.
+
+Lemma owns_dec (v : lview) (r : nat) : {owns v r} + {~ owns v r}.
+Proof.
+  unfold owns. destruct (v_rec v) as [r'|].
+  - destruct (Nat.eq_dec r' r) as [->|Hne]; [left; now left|].
+    destruct (in_dec Nat.eq_dec r (v_held v)); [left; now right|right; intros [H|H]; [congruence|contradiction]].
+  - destruct (in_dec Nat.eq_dec r (v_held v)); [left; now right|right; intros [H|H]; [discriminate|contradiction]].
+Qed.
+
+Lemma inv_claims c g a tr t g' eff' cl' es :
+  Inv c g a tr ->
+  g_list g' = g_list g -> List.length (g_recs g') = List.length (g_recs g) ->
+  (forall r, r_owner (get_rec g' r) = r_owner (get_rec g r) /\ r_slots (get_rec g' r) = r_slots (get_rec g r)) ->
+  (forall r, ~ owns (view a t) r -> r_ret (get_rec g' r) = r_ret (get_rec g r) /\ eff' r = a_eff a r) ->
+  let a' := set_claims a t cl' eff' in
+  (forall cl, In cl cl' -> owns (view a t) (crec cl) /\ claim_ok g' a' cl) ->
+  NoDup (map crec cl') ->
+  (forall r x, owns (view a t) r -> eff' r = Some x -> exists cl, In cl cl' /\ crec cl = r) ->
+  (forall e, In e es -> mild e = true) ->
+  bal_cl g' a' (tr ++ Conc.tag t es) ->
+  safe_cl c (tr ++ Conc.tag t es) ->
+  (resp_last (tr ++ Conc.tag t es) t -> v_held (view a t) = [] /\ cl' = []) ->
+  Inv c g' a' (tr ++ Conc.tag t es).
+Proof.
+  intros HI Hlist Hlen Hos Hother a' Hcl Hnd Heff Hm Hbal Hsafe Hidle.
+  assert (Hs : forall r j, gslot g' r j = gslot g r j).
+  { intros r j. unfold gslot. destruct (Hos r) as (_ & ->). reflexivity. }
+  assert (Ho : forall r, r_owner (get_rec g' r) = r_owner (get_rec g r)) by (intros r; apply Hos).
+  assert (Hvr : forall t', v_rec (view a' t') = v_rec (view a t')).
+  { intros t'. unfold a'. destruct (Nat.eq_dec t' t) as [->|Hne];
+      [rewrite view_set_claims_same|rewrite view_set_claims_other by exact Hne]; reflexivity. }
+  assert (Hvh : forall t', v_held (view a' t') = v_held (view a t')).
+  { intros t'. unfold a'. destruct (Nat.eq_dec t' t) as [->|Hne];
+      [rewrite view_set_claims_same|rewrite view_set_claims_other by exact Hne]; reflexivity. }
+  assert (Hvk : forall t', v_clr (view a' t') = v_clr (view a t')).
+  { intros t'. unfold a'. destruct (Nat.eq_dec t' t) as [->|Hne];
+      [rewrite view_set_claims_same|rewrite view_set_claims_other by exact Hne]; reflexivity. }
+  assert (Hvs : forall t', v_scan (view a' t') = v_scan (view a t')).
+  { intros t'. unfold a'. destruct (Nat.eq_dec t' t) as [->|Hne];
+      [rewrite view_set_claims_same|rewrite view_set_claims_other by exact Hne]; reflexivity. }
+  assert (Hvn : forall t', v_seen (view a' t') = v_seen (view a t')).
+  { intros t'. unfold a'. destruct (Nat.eq_dec t' t) as [->|Hne];
+      [rewrite view_set_claims_same|rewrite view_set_claims_other by exact Hne]; reflexivity. }
+  assert (Hoo : forall t' r, owns (view a' t') r <-> owns (view a t') r).
+  { intros t' r. unfold owns. rewrite Hvr, Hvh. tauto. }
+  destruct HI.
+  apply mkInv.
+  - intros r j. rewrite slot_at_mild by exact Hm. rewrite Hs. auto.
+  - intros r j H. rewrite Hs. rewrite Ho in H. auto.
+  - intros r j H. rewrite Hs. rewrite Hlist in H. auto.
+  - intros r j H. rewrite Hs. auto.
+  - intros r H. rewrite Hlist in H. rewrite Hlen. auto.
+  - intros t' r H. rewrite Hvr in H. rewrite Ho, Hlist. eauto.
+  - intros t' r H. rewrite Hvh in H. rewrite Hlen, Ho. destruct (i_held t' r H) as (H1 & H2 & H3).
+    repeat split; auto. intros j. rewrite Hs. auto.
+  - intros t1 t2 r H1 H2. apply Hoo in H1. apply Hoo in H2. eauto.
+  - intros t'. rewrite Hvr, Hvh. auto.
+  - intros t' r j H1 H2. rewrite Hs. rewrite Hvr in H1. rewrite Hvk in H2. eauto.
+  - intros r H. rewrite Hlen in H. rewrite Hlist. destruct (i_unl r H) as [H1|(t' & H1)]; [now left|right].
+    exists t'. now rewrite Hvh.
+  - intros t' r H. rewrite Hvn in H. rewrite Hlist. eauto.
+  - intros t' cl H. destruct (Nat.eq_dec t' t) as [->|Hne].
+    + unfold a' in H. rewrite view_set_claims_same in H. cbn in H. destruct (Hcl cl H) as (H1 & H2).
+      split; [now apply Hoo|exact H2].
+    + unfold a' in H. rewrite view_set_claims_other in H by exact Hne.
+      destruct (i_claim t' cl H) as (H1 & H2). split; [now apply Hoo|].
+      assert (Hno : ~ owns (view a t) (crec cl)).
+      { intros H3. apply Hne. eapply i_excl; eauto. }
+      destruct (Hother _ Hno) as (E1 & E2).
+      destruct cl; cbn in *; rewrite E1, E2; exact H2.
+  - intros t'. destruct (Nat.eq_dec t' t) as [->|Hne].
+    + unfold a'. rewrite view_set_claims_same. exact Hnd.
+    + unfold a'. rewrite view_set_claims_other by exact Hne. auto.
+  - intros r x H. change (eff' r = Some x) in H.
+    destruct (owns_dec (view a t) r) as [Hown|Hno].
+    + destruct (Heff r x Hown H) as (cl & H1 & H2). exists t, cl. split; [|exact H2].
+      unfold a'. rewrite view_set_claims_same. exact H1.
+    + destruct (Hother _ Hno) as (_ & E2). rewrite E2 in H.
+      destruct (i_eff r x H) as (t' & cl & H1 & H2). exists t', cl. split; [|exact H2].
+      destruct (Nat.eq_dec t' t) as [->|Hne].
+      * exfalso. apply Hno. rewrite <- H2. apply (i_claim t cl H1).
+      * unfold a'. rewrite view_set_claims_other by exact Hne. exact H1.
+  - exact Hbal.
+  - assert (Hc : cov_cl c a (tr ++ Conc.tag t es)) by (apply cov_cl_mild; auto).
+    intros t' sv H. rewrite Hvs in H. apply (Hc t' sv H).
+  - exact Hsafe.
+  - apply kept_cl_mild; auto.
+  - intros t' H. destruct (Nat.eq_dec t' t) as [->|Hne].
+    + destruct (Hidle H) as (E1 & E2). unfold a'. rewrite view_set_claims_same. split; assumption.
+    + unfold a'. rewrite view_set_claims_other by exact Hne. apply i_idle.
+      apply (resp_last_other tr t' t es); [congruence|exact H].
+Qed.
+
+Definition set_eff (eff : nat -> option (list Z)) (r : nat) (o : option (list Z)) : nat -> option (list Z) :=
+  fun x => if Nat.eqb x r then o else eff x.
+
+Lemma set_eff_same eff r o : set_eff eff r o r = o.
+Proof. unfold set_eff. now rewrite Nat.eqb_refl. Qed.
+Lemma set_eff_other eff r o r' : r' <> r -> set_eff eff r o r' = eff r'.
+Proof. unfold set_eff. intros H. destruct (Nat.eqb_spec r' r); congruence. Qed.
+
+Lemma NoDup_app_r {A} (l l' : list A) : NoDup (l ++ l') -> NoDup l'.
+Proof. induction l as [|x l IH]; cbn; [auto|]. intros H. inversion H; auto. Qed.
+
+(** the thread replaces its claim on ONE record it owns (always the first of its claims) *)
+Lemma inv_claim1 c g a tr t r g' co cn rest neweff es :
+  Inv c g a tr -> owns (view a t) r ->
+  g_list g' = g_list g -> List.length (g_recs g') = List.length (g_recs g) ->
+  (forall r', r_owner (get_rec g' r') = r_owner (get_rec g r') /\ r_slots (get_rec g' r') = r_slots (get_rec g r')) ->
+  (forall r', r' <> r -> r_ret (get_rec g' r') = r_ret (get_rec g r')) ->
+  v_cl (view a t) = co ++ rest ->
+  (forall cl, In cl co -> crec cl = r) -> (forall cl, In cl rest -> crec cl <> r) ->
+  (forall cl, In cl cn -> crec cl = r) -> List.length cn <= 1 ->
+  let a' := set_claims a t (cn ++ rest) (set_eff (a_eff a) r neweff) in
+  (forall cl, In cl cn -> claim_ok g' a' cl) ->
+  (neweff <> None -> cn <> []) ->
+  (forall e, In e es -> mild e = true) ->
+  bal_cl g' a' (tr ++ Conc.tag t es) ->
+  safe_cl c (tr ++ Conc.tag t es) ->
+  (resp_last (tr ++ Conc.tag t es) t -> v_held (view a t) = [] /\ cn ++ rest = []) ->
+  Inv c g' a' (tr ++ Conc.tag t es).
+Proof.
+  intros HI Hown Hlist Hlen Hos Hret Hcl Hco Hrest Hcn Hcn1 a' Hok Hne Hm Hbal Hsafe Hidle.
+  apply (inv_claims c g a tr t g' (set_eff (a_eff a) r neweff) (cn ++ rest) es); auto.
+  - intros r' Hno. assert (r' <> r) by (intros ->; contradiction).
+    split; [now apply Hret|now apply set_eff_other].
+  - intros cl Hin. apply in_app_or in Hin. destruct Hin as [Hin|Hin].
+    + split; [rewrite (Hcn cl Hin); exact Hown|now apply Hok].
+    + assert (Hin' : In cl (v_cl (view a t))) by (rewrite Hcl; apply in_or_app; now right).
+      destruct (i_claim _ _ _ _ HI t cl Hin') as (H1 & H2). split; [exact H1|].
+      pose proof (Hrest cl Hin) as Hn.
+      destruct cl; cbn in *; rewrite Hret by exact Hn; rewrite set_eff_other by exact Hn; exact H2.
+  - pose proof (i_claim_nd _ _ _ _ HI t) as Hnd. rewrite Hcl, map_app in Hnd.
+    apply NoDup_app_r in Hnd. rewrite map_app.
+    destruct cn as [|c1 [|c2 cn']]; cbn in *; [exact Hnd| |lia].
+    constructor; [|exact Hnd]. rewrite (Hcn c1 (or_introl eq_refl)).
+    intros Hin. apply in_map_iff in Hin. destruct Hin as (cl & E & Hin). eapply Hrest; eauto.
+  - intros r0 x Ho0 Hx. destruct (Nat.eq_dec r0 r) as [->|Hn0].
+    + rewrite set_eff_same in Hx. destruct cn as [|c1 cn']; [exfalso; apply Hne; [congruence|reflexivity]|].
+      exists c1. split; [now left|apply Hcn; now left].
+    + rewrite set_eff_other in Hx by exact Hn0.
+      destruct (i_eff _ _ _ _ HI r0 x Hx) as (t' & cl & H1 & H2).
+      assert (t' = t).
+      { eapply (i_excl _ _ _ _ HI); [|exact Ho0]. rewrite <- H2. apply (i_claim _ _ _ _ HI t' cl H1). }
+      subst t'. rewrite Hcl in H1. apply in_app_or in H1. destruct H1 as [H1|H1].
+      * exfalso. apply Hn0. rewrite <- H2. now apply Hco.
+      * exists cl. split; [apply in_or_app; now right|exact H2].
+Qed.
+
+Lemma eff_none c g a tr t r :
+  Inv c g a tr -> owns (view a t) r -> (forall cl, In cl (v_cl (view a t)) -> crec cl <> r) -> a_eff a r = None.
+Proof.
+  intros HI Ho Hn. destruct (a_eff a r) as [x|] eqn:E; [|reflexivity]. exfalso.
+  destruct (i_eff _ _ _ _ HI r x E) as (t' & cl & H1 & H2).
+  assert (t' = t).
+  { eapply (i_excl _ _ _ _ HI); [|exact Ho]. rewrite <- H2. apply (i_claim _ _ _ _ HI t' cl H1). }
+  subst t'. eapply Hn; eauto.
+Qed.
+
+Lemma safe_cl_nodispose c tr t es :
+  safe_cl c tr -> (forall e p, In e es -> e <> ev_dispose p) -> safe_cl c (tr ++ Conc.tag t es).
+Proof.
+  intros Hs Hq. apply safe_cl_ext; [exact Hs|].
+  intros k t' p s Hk. apply nth_error_tag in Hk. destruct Hk as (_ & Hk).
+  exfalso. apply nth_error_In in Hk. eapply Hq; eauto.
+Qed.
+
+(** balance after a step that changes the effective content of one record *)
+Lemma bal_step g a tr g' a' t es r :
+  bal_cl g a tr -> List.length (g_recs g') = List.length (g_recs g) -> r < List.length (g_recs g) ->
+  (forall r', r' <> r -> effc g' a' r' = effc g a r') ->
+  (forall p, (cnt "retire" p (Conc.tag t es) - cnt "dispose" p (Conc.tag t es) - cnt "overflow" p (Conc.tag t es)
+              = countZ p (effc g' a' r) - countZ p (effc g a r))%Z) ->
+  bal_cl g' a' (tr ++ Conc.tag t es).
+Proof.
+  intros Hb Hlen Hlt Hoth Hd p. rewrite !cnt_app. rewrite (pend_change p g a g' a' r Hlen Hlt Hoth).
+  specialize (Hb p). specialize (Hd p). lia.
+Qed.
+
+Lemma cnt_tag1 name n x p t :
+  cnt name p (Conc.tag t [EvCli n [x]]) = if (String.eqb n name && Z.eqb x p)%bool then 1%Z else 0%Z.
+Proof. unfold cnt, Conc.tag. cbn. destruct (String.eqb n name && Z.eqb x p)%bool; reflexivity. Qed.
+
+Lemma cnt_tag_acc name p t k o b : cnt name p (Conc.tag t [EvAcc k o b]) = 0%Z.
+Proof. reflexivity. Qed.
+
+Lemma countZ_snoc p l x : countZ p (l ++ [x]) = (countZ p l + if Z.eqb x p then 1 else 0)%Z.
+Proof. rewrite countZ_app. cbn. lia. Qed.
+
+Lemma effc_set_claims_same g a t cl eff r o : effc g (set_claims a t cl (set_eff eff r o)) r =
+  match o with Some x => x | None => r_ret (get_rec g r) end.
+Proof. unfold effc, set_claims; cbn. now rewrite set_eff_same. Qed.
+Lemma effc_set_claims_other g g' a t cl r o r' : r' <> r -> r_ret (get_rec g' r') = r_ret (get_rec g r') ->
+  effc g' (set_claims a t cl (set_eff (a_eff a) r o)) r' = effc g a r'.
+Proof. intros Hne Hr. unfold effc, set_claims; cbn. rewrite set_eff_other by exact Hne. now rewrite Hr. Qed.
+
+Lemma same_g_facts g :
+  g_list g = g_list g /\ List.length (g_recs g) = List.length (g_recs g) /\
+  (forall r', r_owner (get_rec g r') = r_owner (get_rec g r') /\ r_slots (get_rec g r') = r_slots (get_rec g r')).
+Proof. repeat split. Qed.
+
+Lemma set_ret_facts g r l : r < List.length (g_recs g) ->
+  let g' := upd_rec g r (set_ret l) in
+  g_list g' = g_list g /\ List.length (g_recs g') = List.length (g_recs g) /\
+  (forall r', r_owner (get_rec g' r') = r_owner (get_rec g r') /\ r_slots (get_rec g' r') = r_slots (get_rec g r')) /\
+  (forall r', r' <> r -> r_ret (get_rec g' r') = r_ret (get_rec g r')) /\
+  r_ret (get_rec g' r) = l.
+Proof.
+  intros Hlt g'. unfold g'. repeat split.
+  - apply upd_rec_length.
+  - destruct (Nat.eq_dec r' r) as [->|Hne]; [rewrite get_upd_same by exact Hlt|rewrite get_upd_other by exact Hne]; reflexivity.
+  - destruct (Nat.eq_dec r' r) as [->|Hne]; [rewrite get_upd_same by exact Hlt|rewrite get_upd_other by exact Hne]; reflexivity.
+  - intros r' Hne. now rewrite get_upd_other by exact Hne.
+  - now rewrite get_upd_same by exact Hlt.
+Qed.
+
+Lemma acc_mild k o b e : In e [EvAcc k o b] -> mild e = true.
+Proof. intros [<-|[]]. reflexivity. Qed.
+Lemma acc_quiet k o b e : In e [EvAcc k o b] -> quiet e = true.
+Proof. intros [<-|[]]. reflexivity. Qed.
+
+Lemma not_resp_last_cli tr t n args : is_resp (EvCli n args) = false -> ~ resp_last (tr ++ Conc.tag t [EvCli n args]) t.
+Proof. intros H Hr. apply (resp_last_same tr t [] (EvCli n args)) in Hr. congruence. Qed.
+
+(** C1: the client announces retire(p): the effective content of its array grows *)
+Lemma inv_emit_retire c g a tr t r p :
+  Inv c g a tr -> v_rec (view a t) = Some r -> (forall cl, In cl (v_cl (view a t)) -> crec cl <> r) ->
+  Inv c g (set_claims a t (ClPush r p :: v_cl (view a t)) (set_eff (a_eff a) r (Some (r_ret (get_rec g r) ++ [p]))))
+      (tr ++ Conc.tag t [EvCli "retire" [p]]).
+Proof.
+  intros HI Hrec Hno.
+  assert (Hown : owns (view a t) r) by (left; exact Hrec).
+  assert (Hlt := owns_lt _ _ _ _ _ _ HI Hown).
+  assert (Hnone := eff_none _ _ _ _ _ _ HI Hown Hno).
+  destruct (same_g_facts g) as (H1 & H2 & H3).
+  apply (inv_claim1 c g a tr t r g [] [ClPush r p] (v_cl (view a t))); auto.
+  - intros cl []. 
+  - intros cl [<-|[]]. reflexivity.
+  - intros cl [<-|[]]. cbn. now rewrite set_eff_same.
+  - intros _. discriminate.
+  - intros e [<-|[]]. reflexivity.
+  - apply (bal_step g a tr g _ t _ r); auto.
+    + exact (i_bal _ _ _ _ HI).
+    + intros r' Hne. now apply effc_set_claims_other.
+    + intros q. rewrite effc_set_claims_same. unfold effc. rewrite Hnone.
+      rewrite !cnt_tag1. cbn. rewrite countZ_snoc. destruct (Z.eqb p q); lia.
+  - apply safe_cl_nodispose; [exact (i_safe _ _ _ _ HI)|]. intros e q [<-|[]]. discriminate.
+  - intros Hr. exfalso. revert Hr. apply not_resp_last_cli. reflexivity.
+Qed.
+
+(** C2a: current_.load() of an owned array on which the thread holds no claim *)
+Lemma inv_ld_cur_fresh c g a tr t r :
+  Inv c g a tr -> owns (view a t) r -> (forall cl, In cl (v_cl (view a t)) -> crec cl <> r) ->
+  let l := r_ret (get_rec g r) in
+  Inv c g (set_claims a t (ClAct r l l :: v_cl (view a t)) (set_eff (a_eff a) r (Some l)))
+      (tr ++ Conc.tag t [EvAcc KLd (obj_cur r) true]).
+Proof.
+  intros HI Hown Hno l.
+  assert (Hlt := owns_lt _ _ _ _ _ _ HI Hown).
+  assert (Hnone := eff_none _ _ _ _ _ _ HI Hown Hno).
+  destruct (same_g_facts g) as (H1 & H2 & H3).
+  apply (inv_claim1 c g a tr t r g [] [ClAct r l l] (v_cl (view a t))); auto.
+  - intros cl [].
+  - intros cl [<-|[]]. reflexivity.
+  - intros cl [<-|[]]. cbn. rewrite set_eff_same. auto.
+  - intros _. discriminate.
+  - apply acc_mild.
+  - apply (bal_step g a tr g _ t _ r); auto.
+    + exact (i_bal _ _ _ _ HI).
+    + intros r' Hne. now apply effc_set_claims_other.
+    + intros q. rewrite effc_set_claims_same. unfold effc. rewrite Hnone. cbn. fold l. lia.
+  - apply safe_cl_quiet; [exact (i_safe _ _ _ _ HI)|]. apply acc_quiet.
+  - intros Hr. exfalso. revert Hr. apply not_resp_after_acc. discriminate.
+Qed.
+
+(** C2b: the load inside retired_array::push after the retire was announced *)
+Lemma inv_ld_cur_push c g a tr t r p rest :
+  Inv c g a tr -> v_cl (view a t) = ClPush r p :: rest ->
+  let l := r_ret (get_rec g r) in
+  Inv c g (set_claims a t (ClAct r l (l ++ [p]) :: rest) (set_eff (a_eff a) r (Some (l ++ [p]))))
+      (tr ++ Conc.tag t [EvAcc KLd (obj_cur r) true]).
+Proof.
+  intros HI Hcl l.
+  assert (Hin : In (ClPush r p) (v_cl (view a t))) by (rewrite Hcl; now left).
+  destruct (i_claim _ _ _ _ HI t _ Hin) as (Hown & Hok). cbn in Hown, Hok.
+  assert (Hlt := owns_lt _ _ _ _ _ _ HI Hown).
+  pose proof (i_claim_nd _ _ _ _ HI t) as Hnd. rewrite Hcl in Hnd. cbn in Hnd. inversion Hnd as [|x y Hnin Hnd']; subst.
+  destruct (same_g_facts g) as (H1 & H2 & H3).
+  apply (inv_claim1 c g a tr t r g [ClPush r p] [ClAct r l (l ++ [p])] rest); auto.
+  - intros cl [<-|[]]. reflexivity.
+  - intros cl Hc E. apply Hnin. rewrite <- E. now apply in_map.
+  - intros cl [<-|[]]. reflexivity.
+  - intros cl [<-|[]]. cbn. rewrite set_eff_same. auto.
+  - intros _. discriminate.
+  - apply acc_mild.
+  - apply (bal_step g a tr g _ t _ r); auto.
+    + exact (i_bal _ _ _ _ HI).
+    + intros r' Hne. now apply effc_set_claims_other.
+    + intros q. rewrite effc_set_claims_same. unfold effc. rewrite Hok. cbn. fold l. lia.
+  - apply safe_cl_quiet; [exact (i_safe _ _ _ _ HI)|]. apply acc_quiet.
+  - intros Hr. exfalso. revert Hr. apply not_resp_after_acc. discriminate.
+Qed.
+
+(** C3/C4: the store (or exchange) of current_ that makes the effective content actual *)
+Lemma inv_st_cur c g a tr t r act e rest k :
+  Inv c g a tr -> v_cl (view a t) = ClAct r act e :: rest -> k <> KBegin ->
+  Inv c (upd_rec g r (set_ret e)) (set_claims a t rest (set_eff (a_eff a) r None))
+      (tr ++ Conc.tag t [EvAcc k (obj_cur r) true]).
+Proof.
+  intros HI Hcl Hk.
+  assert (Hin : In (ClAct r act e) (v_cl (view a t))) by (rewrite Hcl; now left).
+  destruct (i_claim _ _ _ _ HI t _ Hin) as (Hown & Hok). cbn in Hown, Hok. destruct Hok as (Hact & Heff).
+  assert (Hlt := owns_lt _ _ _ _ _ _ HI Hown).
+  pose proof (i_claim_nd _ _ _ _ HI t) as Hnd. rewrite Hcl in Hnd. cbn in Hnd. inversion Hnd as [|x y Hnin Hnd']; subst.
+  destruct (set_ret_facts g r e Hlt) as (H1 & H2 & H3 & H4 & H5).
+  apply (inv_claim1 c g a tr t r _ [ClAct r (r_ret (get_rec g r)) e] [] rest).
+  - exact HI.
+  - exact Hown.
+  - exact H1.
+  - exact H2.
+  - exact H3.
+  - exact H4.
+  - exact Hcl.
+  - intros cl [<-|[]]. reflexivity.
+  - intros cl Hc E. apply Hnin. rewrite <- E. now apply in_map.
+  - intros cl [].
+  - cbn. lia.
+  - intros cl [].
+  - intros H. exfalso. apply H. reflexivity.
+  - apply acc_mild.
+  - apply (bal_step g a tr _ _ t _ r).
+    + exact (i_bal _ _ _ _ HI).
+    + exact H2.
+    + exact Hlt.
+    + intros r' Hne. apply effc_set_claims_other; auto.
+    + intros q. rewrite effc_set_claims_same. rewrite H5. unfold effc. rewrite Heff. cbn. lia.
+  - apply safe_cl_quiet; [exact (i_safe _ _ _ _ HI)|]. apply acc_quiet.
+  - intros Hr. exfalso. revert Hr. apply not_resp_after_acc. exact Hk.
+Qed.
+
+(** C5: push past the capacity: the announced entry is dropped *)
+Lemma inv_emit_overflow c g a tr t r l p rest :
+  Inv c g a tr -> v_cl (view a t) = ClAct r l (l ++ [p]) :: rest ->
+  Inv c g (set_claims a t rest (set_eff (a_eff a) r None)) (tr ++ Conc.tag t [EvCli "overflow" [p]]).
+Proof.
+  intros HI Hcl.
+  assert (Hin : In (ClAct r l (l ++ [p])) (v_cl (view a t))) by (rewrite Hcl; now left).
+  destruct (i_claim _ _ _ _ HI t _ Hin) as (Hown & Hok). cbn in Hown, Hok. destruct Hok as (Hact & Heff).
+  assert (Hlt := owns_lt _ _ _ _ _ _ HI Hown).
+  pose proof (i_claim_nd _ _ _ _ HI t) as Hnd. rewrite Hcl in Hnd. cbn in Hnd. inversion Hnd as [|x y Hnin Hnd']; subst.
+  destruct (same_g_facts g) as (H1 & H2 & H3).
+  apply (inv_claim1 c g a tr t r g [ClAct r (r_ret (get_rec g r)) (r_ret (get_rec g r) ++ [p])] [] rest).
+  - exact HI.
+  - exact Hown.
+  - exact H1.
+  - exact H2.
+  - exact H3.
+  - reflexivity.
+  - exact Hcl.
+  - intros cl [<-|[]]. reflexivity.
+  - intros cl Hc E. apply Hnin. rewrite <- E. now apply in_map.
+  - intros cl [].
+  - cbn. lia.
+  - intros cl [].
+  - intros H. exfalso. apply H. reflexivity.
+  - intros e [<-|[]]. reflexivity.
+  - apply (bal_step g a tr g _ t _ r).
+    + exact (i_bal _ _ _ _ HI).
+    + reflexivity.
+    + exact Hlt.
+    + intros r' Hne. now apply effc_set_claims_other.
+    + intros q. rewrite effc_set_claims_same. unfold effc. rewrite Heff.
+      rewrite !cnt_tag1. cbn. rewrite countZ_snoc. destruct (Z.eqb p q); lia.
+  - apply safe_cl_nodispose; [exact (i_safe _ _ _ _ HI)|]. intros e q [<-|[]]. discriminate.
+  - intros Hr. exfalso. revert Hr. apply not_resp_last_cli. reflexivity.
+Qed.
+
+(** ** 9. scan markers *)
+Lemma slot_at_noslot tr t es r j :
+  (forall e, In e es -> is_cli_named "g_slot" e = false) -> slot_at (tr ++ Conc.tag t es) r j = slot_at tr r j.
+Proof.
+  intros H. rewrite slot_at_app. generalize (slot_at tr r j). unfold Conc.tag.
+  induction es as [|e es IH]; intros z; cbn; [reflexivity|].
+  rewrite IH by (intros; apply H; now right). f_equal.
+  pose proof (H e (or_introl eq_refl)) as H1.
+  destruct e as [k o b|n args]; [reflexivity|]. cbn in *.
+  destruct args as [|x [|y [|z' [|w rest]]]]; try reflexivity. now rewrite H1.
+Qed.
+
+Lemma last_sb_nosb tr t es t' :
+  (forall e, In e es -> is_cli_named "g_scan_begin" e = false) -> last_sb (tr ++ Conc.tag t es) t' = last_sb tr t'.
+Proof.
+  intros H. apply last_sb_app_other. intros te Hin. unfold Conc.tag in Hin.
+  apply in_map_iff in Hin. destruct Hin as (e & <- & He). unfold is_sb. cbn.
+  rewrite (H e He). now rewrite andb_false_r.
+Qed.
+
+Lemma cov_one_ext c sv tr es s :
+  last_sb tr s = last_sb tr s -> forall t,
+  last_sb tr t = Some s ->
+  (forall r j v, covered (cH c) sv r j -> v <> 0%Z -> held tr s r j v -> In v (sc_coll sv)) ->
+  (forall v, In v (sc_coll sv) -> seen_in tr s (List.length tr) v) ->
+  (forall r j v, covered (cH c) sv r j -> v <> 0%Z -> held (tr ++ es) s r j v -> In v (sc_coll sv)) /\
+  (forall v, In v (sc_coll sv) -> seen_in (tr ++ es) s (List.length (tr ++ es)) v).
+Proof.
+  intros _ t Hs Hcv Hsn. pose proof (last_sb_lt _ _ _ Hs) as Hlt. split.
+  - intros r j v Hcov Hv Hh. apply (Hcv r j v Hcov Hv). eapply held_prefix; [lia|exact Hh].
+  - intros v Hv. rewrite app_length. eapply seen_in_mono; [|apply seen_in_ext; [|apply Hsn; exact Hv]]; lia.
+Qed.
+
+Lemma cov_cl_nosb c a tr t es :
+  cov_cl c a tr -> (forall e, In e es -> is_cli_named "g_scan_begin" e = false) -> cov_cl c a (tr ++ Conc.tag t es).
+Proof.
+  intros Hc Hq t' sv Hsv. destruct (Hc t' sv Hsv) as (s & Hs & Hcv & Hsn).
+  exists s. rewrite last_sb_nosb by exact Hq. split; [exact Hs|].
+  eapply cov_one_ext; eauto.
+Qed.
+
+Lemma kept_cl_noend tr t es :
+  kept_cl tr -> (forall e, In e es -> is_cli_named "g_scan_end" e = false) -> kept_cl (tr ++ Conc.tag t es).
+Proof.
+  intros Hs Hq. apply kept_cl_ext; [exact Hs|].
+  intros k t' r kept s Hk. apply nth_error_tag in Hk. destruct Hk as (_ & Hk).
+  apply nth_error_In in Hk. pose proof (Hq _ Hk) as H. discriminate.
+Qed.
+
+Definition sb_evs (r : nat) : list ev := [EvAcc KFaa (obj_sync r) true; EvCli "g_scan_begin" [zn r]].
+
+Lemma last_sb_sb_evs tr t r : last_sb (tr ++ Conc.tag t (sb_evs r)) t = Some (S (List.length tr)).
+Proof.
+  unfold sb_evs. cbn [Conc.tag map].
+  replace (tr ++ [(t, EvAcc KFaa (obj_sync r) true); (t, EvCli "g_scan_begin" [zn r])])
+    with ((tr ++ [(t, EvAcc KFaa (obj_sync r) true)]) ++ [(t, EvCli "g_scan_begin" [zn r])])
+    by (rewrite <- app_assoc; reflexivity).
+  rewrite last_sb_snoc. unfold is_sb. cbn. rewrite Nat.eqb_refl. cbn. rewrite app_length. cbn. f_equal. lia.
+Qed.
+
+(** the fetch_add that opens scan(): trace part (the thread is not scanning) ... *)
+Lemma inv_trace_sb c g a tr t r :
+  Inv c g a tr -> v_scan (view a t) = None -> Inv c g a (tr ++ Conc.tag t (sb_evs r)).
+Proof.
+  intros HI Hns. destruct HI.
+  assert (Hnoslot : forall e, In e (sb_evs r) -> is_cli_named "g_slot" e = false) by (intros e [<-|[<-|[]]]; reflexivity).
+  assert (Hnoend : forall e, In e (sb_evs r) -> is_cli_named "g_scan_end" e = false) by (intros e [<-|[<-|[]]]; reflexivity).
+  apply mkInv.
+  - intros r' j. rewrite slot_at_noslot by exact Hnoslot. auto.
+  - exact i_zero_unowned.
+  - exact i_zero_unlisted.
+  - exact i_zero_hi.
+  - exact i_list_lt.
+  - exact i_rec.
+  - exact i_held.
+  - exact i_excl.
+  - exact i_self.
+  - exact i_clr.
+  - exact i_unl.
+  - exact i_seen.
+  - exact i_claim.
+  - exact i_claim_nd.
+  - exact i_eff.
+  - intros p. rewrite !cnt_app. rewrite (i_bal p).
+    assert (E : forall name, cnt name p (Conc.tag t (sb_evs r)) = 0%Z \/ ~ In name ["retire"; "dispose"; "overflow"]).
+    { intros name. destruct (in_dec string_dec name ["retire"; "dispose"; "overflow"]) as [Hi|Hi]; [left|now right].
+      cbn in Hi. destruct Hi as [<-|[<-|[<-|[]]]]; reflexivity. }
+    destruct (E "retire") as [->|H]; [|exfalso; apply H; cbn; tauto].
+    destruct (E "dispose") as [->|H]; [|exfalso; apply H; cbn; tauto].
+    destruct (E "overflow") as [->|H]; [|exfalso; apply H; cbn; tauto]. lia.
+  - intros t' sv Hsv. destruct (Nat.eq_dec t' t) as [->|Hne]; [congruence|].
+    destruct (i_cov t' sv Hsv) as (s & Hs & Hcv & Hsn). exists s. split.
+    + rewrite last_sb_app_other; [exact Hs|]. intros te Hin. eapply is_sb_tag_other; [|exact Hin]. congruence.
+    + eapply cov_one_ext; eauto.
+  - apply safe_cl_nodispose; [exact i_safe|]. intros e p [<-|[<-|[]]]; discriminate.
+  - apply kept_cl_noend; [exact i_kept|exact Hnoend].
+  - apply idle_cl_ext; [exact i_idle|]. intros es' e He Hresp. exfalso.
+    assert (e = EvCli "g_scan_begin" [zn r]).
+    { unfold sb_evs in He. destruct es' as [|x [|y l]]; cbn in He; inversion He; auto. destruct l; discriminate. }
+    subst e. discriminate.
+Qed.
+
+Definition with_scan (v : lview) (o : option scanv) : lview := mkV (v_rec v) (v_held v) (v_clr v) o (v_cl v) (v_seen v).
+
+(** ... and the whole step *)
+Lemma inv_scan_begin c g a tr t r :
+  Inv c g a tr -> v_scan (view a t) = None ->
+  Inv c g (upd_view a t (with_scan (view a t) (Some (mkScan [] None None)))) (tr ++ Conc.tag t (sb_evs r)).
+Proof.
+  intros HI Hns. apply inv_soft; try reflexivity.
+  - now apply inv_trace_sb.
+  - intros r' H. cbn in H. apply (i_seen _ _ _ _ HI t r' H).
+  - intros sv H. cbn in H. inversion H; subst sv. exists (S (List.length tr)). split; [apply last_sb_sb_evs|].
+    split; [intros r' j v []|intros v []].
+Qed.
+
+(** the return of scan(): the cells kept were all seen in some hazard slot during the scan *)
+Lemma inv_trace_scan_end c g a tr t r kept sv :
+  Inv c g a tr -> v_scan (view a t) = Some sv -> incl kept (sc_coll sv) ->
+  Inv c g a (tr ++ Conc.tag t [ev_scan_end r kept]).
+Proof.
+  intros HI Hsv Hincl.
+  assert (Hnr : ~ resp_last (tr ++ Conc.tag t [ev_scan_end r kept]) t).
+  { intros H. apply (resp_last_same tr t [] (ev_scan_end r kept)) in H. discriminate. }
+  destruct HI.
+  assert (Hnoslot : forall e, In e [ev_scan_end r kept] -> is_cli_named "g_slot" e = false) by (intros e [<-|[]]; reflexivity).
+  assert (Hnosb : forall e, In e [ev_scan_end r kept] -> is_cli_named "g_scan_begin" e = false) by (intros e [<-|[]]; reflexivity).
+  apply mkInv.
+  - intros r' j. rewrite slot_at_noslot by exact Hnoslot. auto.
+  - exact i_zero_unowned.
+  - exact i_zero_unlisted.
+  - exact i_zero_hi.
+  - exact i_list_lt.
+  - exact i_rec.
+  - exact i_held.
+  - exact i_excl.
+  - exact i_self.
+  - exact i_clr.
+  - exact i_unl.
+  - exact i_seen.
+  - exact i_claim.
+  - exact i_claim_nd.
+  - exact i_eff.
+  - intros p. rewrite !cnt_app. rewrite (i_bal p).
+    assert (E : forall name, In name ["retire"; "dispose"; "overflow"] -> cnt name p (Conc.tag t [ev_scan_end r kept]) = 0%Z).
+    { intros name Hi. apply cnt_tag_none. intros e [<-|[]].
+      cbn in Hi. destruct Hi as [<-|[<-|[<-|[]]]]; destruct kept as [|x l]; reflexivity. }
+    rewrite !E by (cbn; tauto). lia.
+  - apply cov_cl_nosb; [exact i_cov|exact Hnosb].
+  - apply safe_cl_nodispose; [exact i_safe|]. intros e p [<-|[]]; discriminate.
+  - apply kept_cl_ext; [exact i_kept|].
+    intros k t' r' kept' s Hk Hsb p Hp. apply nth_error_tag in Hk. destruct Hk as (-> & Hk).
+    destruct k as [|k]; [|destruct k; discriminate]. cbn in Hk. inversion Hk; subst kept'.
+    cbn in Hsb. rewrite app_nil_r in Hsb.
+    destruct (i_cov t sv Hsv) as (s' & Hs' & _ & Hsn). rewrite Hs' in Hsb. inversion Hsb; subst s'.
+    rewrite Nat.add_0_r. apply seen_in_ext; [lia|]. apply Hsn. now apply Hincl.
+  - intros t' H. destruct (Nat.eq_dec t' t) as [->|Hne]; [contradiction|].
+    apply i_idle. apply (resp_last_other tr t' t [ev_scan_end r kept]); [congruence|exact H].
+Qed.
+
+Lemma inv_scan_end c g a tr t r kept sv :
+  Inv c g a tr -> v_scan (view a t) = Some sv -> incl kept (sc_coll sv) ->
+  Inv c g (upd_view a t (with_scan (view a t) None)) (tr ++ Conc.tag t [ev_scan_end r kept]).
+Proof.
+  intros HI Hsv Hincl. apply inv_soft; try reflexivity.
+  - eapply inv_trace_scan_end; eauto.
+  - intros r' H. cbn in H. apply (i_seen _ _ _ _ HI t r' H).
+  - intros sv' H. discriminate.
+Qed.
+
+(** ** 10. disposer calls of stage 2 *)
+Lemma dispose_mild l e : In e (map ev_dispose l) -> mild e = true.
+Proof. intros H. apply in_map_iff in H. destruct H as (x & <- & _). reflexivity. Qed.
+
+Lemma cnt_dispose_list q t l : cnt "dispose" q (Conc.tag t (map ev_dispose l)) = countZ q l.
+Proof. apply cnt_tag_map. intros x. reflexivity. Qed.
+Lemma cnt_retire_dispose_list q t l : cnt "retire" q (Conc.tag t (map ev_dispose l)) = 0%Z.
+Proof. apply cnt_tag_none. intros e H. apply in_map_iff in H. destruct H as (x & <- & _). reflexivity. Qed.
+Lemma cnt_overflow_dispose_list q t l : cnt "overflow" q (Conc.tag t (map ev_dispose l)) = 0%Z.
+Proof. apply cnt_tag_none. intros e H. apply in_map_iff in H. destruct H as (x & <- & _). reflexivity. Qed.
+
+Lemma inv_emit_dispose c g a tr t r l freed kept rest :
+  Inv c g a tr -> v_cl (view a t) = ClAct r l l :: rest ->
+  (forall p, countZ p l = (countZ p freed + countZ p kept)%Z) ->
+  safe_cl c (tr ++ Conc.tag t (map ev_dispose freed)) ->
+  Inv c g (set_claims a t (ClAct r l kept :: rest) (set_eff (a_eff a) r (Some kept)))
+      (tr ++ Conc.tag t (map ev_dispose freed)).
+Proof.
+  intros HI Hcl Hsplit Hsafe.
+  assert (Hin : In (ClAct r l l) (v_cl (view a t))) by (rewrite Hcl; now left).
+  destruct (i_claim _ _ _ _ HI t _ Hin) as (Hown & Hok). cbn in Hown, Hok. destruct Hok as (Hact & Heff).
+  assert (Hlt := owns_lt _ _ _ _ _ _ HI Hown).
+  pose proof (i_claim_nd _ _ _ _ HI t) as Hnd. rewrite Hcl in Hnd. cbn in Hnd. inversion Hnd as [|x y Hnin Hnd']; subst x y.
+  destruct (same_g_facts g) as (H1 & H2 & H3).
+  apply (inv_claim1 c g a tr t r g [ClAct r l l] [ClAct r l kept] rest).
+  - exact HI.
+  - exact Hown.
+  - exact H1.
+  - exact H2.
+  - exact H3.
+  - reflexivity.
+  - exact Hcl.
+  - intros cl [<-|[]]. reflexivity.
+  - intros cl Hc E. apply Hnin. rewrite <- E. now apply in_map.
+  - intros cl [<-|[]]. reflexivity.
+  - cbn. lia.
+  - intros cl [<-|[]]. cbn. rewrite set_eff_same. auto.
+  - intros _. discriminate.
+  - apply dispose_mild.
+  - apply (bal_step g a tr g _ t _ r).
+    + exact (i_bal _ _ _ _ HI).
+    + reflexivity.
+    + exact Hlt.
+    + intros r' Hne. now apply effc_set_claims_other.
+    + intros q. rewrite effc_set_claims_same. unfold effc. rewrite Heff.
+      rewrite cnt_dispose_list, cnt_retire_dispose_list, cnt_overflow_dispose_list. rewrite (Hsplit q). lia.
+  - exact Hsafe.
+  - intros Hr. exfalso. destruct freed as [|x freed'] using rev_ind.
+    + cbn in Hr. rewrite app_nil_r in Hr. destruct (i_idle _ _ _ _ HI t Hr) as (_ & E). rewrite Hcl in E. discriminate.
+    + rewrite map_app in Hr. cbn in Hr. apply (resp_last_same tr t) in Hr. discriminate.
+Qed.
+
+Lemma retire_once_dispose_ext tr t l : retire_once (tr ++ Conc.tag t (map ev_dispose l)) -> retire_once tr.
+Proof. intros H p. specialize (H p). rewrite cnt_app, cnt_retire_dispose_list in H. lia. Qed.
+
+Lemma firstn_map {A B} (f : A -> B) n l : firstn n (map f l) = map f (firstn n l).
+Proof. revert l; induction n as [|n IH]; intros [|x l]; cbn; auto. now rewrite IH. Qed.
+
+(** the first sentence of C01 for the disposer calls of one stage 2 *)
+Lemma safe_cl_dispose c g a tr t sv freed :
+  Inv c g a tr -> v_scan (view a t) = Some sv -> sc_todo sv = Some [] ->
+  (forall p, In p freed -> (cInplace c = true -> retire_once tr) -> ~ In p (sc_coll sv)) ->
+  safe_cl c (tr ++ Conc.tag t (map ev_dispose freed)).
+Proof.
+  intros HI Hsv Htodo Hfr. apply safe_cl_ext; [exact (i_safe _ _ _ _ HI)|].
+  intros k t' p s Hk Hsb Hro Hp0 r j Hheld.
+  apply nth_error_tag in Hk. destruct Hk as (-> & Hk).
+  rewrite nth_error_map in Hk. destruct (nth_error freed k) as [x|] eqn:Ex; [|discriminate]. cbn in Hk.
+  inversion Hk; subst x. apply nth_error_In in Ex.
+  unfold Conc.tag in Hsb, Hro, Hheld. rewrite !firstn_map in *. fold (Conc.tag t (map ev_dispose (firstn k freed))) in Hsb, Hro.
+  fold (Conc.tag t (map ev_dispose (firstn (S k) freed))) in Hheld.
+  rewrite last_sb_mild in Hsb by apply dispose_mild.
+  destruct (i_cov _ _ _ _ HI t sv Hsv) as (s' & Hs' & Hcv & _). rewrite Hs' in Hsb. inversion Hsb; subst s'.
+  pose proof (last_sb_lt _ _ _ Hs') as Hlt.
+  apply (Hfr p Ex).
+  - intros Hi. eapply retire_once_dispose_ext. exact (Hro Hi).
+  - apply (Hcv r j p); [|exact Hp0|eapply held_prefix; [|exact Hheld]; lia].
+    unfold covered. rewrite Htodo. left. intros [].
+Qed.
+
+(** ** 11. help_scan moves one cell: the load of the destination's current_ (C2d) *)
+Lemma inv_ld_cur_move c g a tr t r h srcl x tl rest :
+  Inv c g a tr -> v_rec (view a t) = Some r -> v_cl (view a t) = ClAct h srcl (x :: tl) :: rest ->
+  (forall cl, In cl rest -> crec cl <> r) -> h <> r ->
+  let l := r_ret (get_rec g r) in
+  Inv c g (set_claims a t (ClAct r l (l ++ [x]) :: ClAct h srcl tl :: rest)
+             (set_eff (set_eff (a_eff a) h (Some tl)) r (Some (l ++ [x]))))
+      (tr ++ Conc.tag t [EvAcc KLd (obj_cur r) true]).
+Proof.
+  intros HI Hrec Hcl Hrest Hhr l.
+  assert (Hinh : In (ClAct h srcl (x :: tl)) (v_cl (view a t))) by (rewrite Hcl; now left).
+  destruct (i_claim _ _ _ _ HI t _ Hinh) as (Hownh & Hokh). cbn in Hownh, Hokh. destruct Hokh as (Hacth & Heffh).
+  assert (Hown : owns (view a t) r) by (left; exact Hrec).
+  assert (Hlt := owns_lt _ _ _ _ _ _ HI Hown). assert (Hlth := owns_lt _ _ _ _ _ _ HI Hownh).
+  assert (Hno : forall cl, In cl (v_cl (view a t)) -> crec cl <> r).
+  { intros cl Hin. rewrite Hcl in Hin. destruct Hin as [<-|Hin]; [exact Hhr|now apply Hrest]. }
+  assert (Hnone := eff_none _ _ _ _ _ _ HI Hown Hno).
+  pose proof (i_claim_nd _ _ _ _ HI t) as Hnd. rewrite Hcl in Hnd. cbn in Hnd. inversion Hnd as [|y z Hnin Hnd']; subst y z.
+  set (eff' := set_eff (set_eff (a_eff a) h (Some tl)) r (Some (l ++ [x]))).
+  assert (Eh : eff' h = Some tl) by (unfold eff'; rewrite set_eff_other by exact Hhr; apply set_eff_same).
+  assert (Er : eff' r = Some (l ++ [x])) by (unfold eff'; apply set_eff_same).
+  assert (Eo : forall r', r' <> r -> r' <> h -> eff' r' = a_eff a r').
+  { intros r' H1 H2. unfold eff'. rewrite !set_eff_other by assumption. reflexivity. }
+  apply (inv_claims c g a tr t g eff' (ClAct r l (l ++ [x]) :: ClAct h srcl tl :: rest)).
+  - exact HI.
+  - reflexivity.
+  - reflexivity.
+  - intros r'. auto.
+  - intros r' Hn. split; [reflexivity|]. apply Eo; intros ->; contradiction.
+  - intros cl [<-|[<-|Hin]].
+    + split; [exact Hown|]. cbn. split; [reflexivity|exact Er].
+    + split; [exact Hownh|]. cbn. split; [exact Hacth|exact Eh].
+    + assert (Hin' : In cl (v_cl (view a t))) by (rewrite Hcl; now right).
+      destruct (i_claim _ _ _ _ HI t cl Hin') as (H1 & H2). split; [exact H1|].
+      assert (crec cl <> r) by now apply Hrest.
+      assert (crec cl <> h) by (intros E; apply Hnin; rewrite <- E; now apply in_map).
+      destruct cl; cbn in *; rewrite Eo by assumption; exact H2.
+  - cbn. constructor; [|constructor; [exact Hnin|exact Hnd']].
+    intros [E|Hin]; [congruence|]. apply in_map_iff in Hin. destruct Hin as (cl & E & Hin). eapply Hrest; eauto.
+  - intros r0 y Ho0 Hy. destruct (Nat.eq_dec r0 r) as [->|Hn0]; [eexists; split; [now left|reflexivity]|].
+    destruct (Nat.eq_dec r0 h) as [->|Hn1]; [eexists; split; [right; now left|reflexivity]|].
+    rewrite Eo in Hy by assumption.
+    destruct (i_eff _ _ _ _ HI r0 y Hy) as (t' & cl & H1 & H2).
+    assert (t' = t).
+    { eapply (i_excl _ _ _ _ HI); [|exact Ho0]. rewrite <- H2. apply (i_claim _ _ _ _ HI t' cl H1). }
+    subst t'. rewrite Hcl in H1. destruct H1 as [<-|H1]; [cbn in H2; congruence|].
+    exists cl. split; [right; now right|exact H2].
+  - apply acc_mild.
+  - intros q. rewrite !cnt_app, !cnt_tag_acc. rewrite (i_bal _ _ _ _ HI q). rewrite !Z.add_0_r. f_equal.
+    set (a1 := mkAux (a_view (set_claims a t (ClAct r l (l ++ [x]) :: ClAct h srcl tl :: rest) eff'))
+                     (set_eff (a_eff a) h (Some tl))).
+    rewrite (pend_change q g a1 g (set_claims a t (ClAct r l (l ++ [x]) :: ClAct h srcl tl :: rest) eff') r eq_refl Hlt).
+    2:{ intros r' Hne. unfold effc; cbn. unfold eff'. now rewrite set_eff_other by exact Hne. }
+    rewrite (pend_change q g a g a1 h eq_refl Hlth).
+    2:{ intros r' Hne. unfold effc, a1; cbn. now rewrite set_eff_other by exact Hne. }
+    assert (E1 : effc g a h = x :: tl) by (unfold effc; now rewrite Heffh).
+    assert (E2 : effc g a1 h = tl) by (unfold effc, a1; cbn; now rewrite set_eff_same).
+    assert (E3 : effc g a1 r = l) by (unfold effc, a1; cbn; rewrite set_eff_other by congruence; now rewrite Hnone).
+    assert (E4 : effc g (set_claims a t (ClAct r l (l ++ [x]) :: ClAct h srcl tl :: rest) eff') r = l ++ [x])
+      by (unfold effc; cbn; now rewrite Er).
+    rewrite E1, E2, E3, E4. rewrite countZ_snoc. cbn. lia.
+  - apply safe_cl_quiet; [exact (i_safe _ _ _ _ HI)|]. apply acc_quiet.
+  - intros Hr. exfalso. revert Hr. apply not_resp_after_acc. discriminate.
+Qed.
+
+(** ** 12. progress of stage 1 *)
+Definition with_seen (v : lview) (l : list nat) : lview := mkV (v_rec v) (v_held v) (v_clr v) (v_scan v) (v_cl v) l.
+
+Lemma inv_set_seen c g a tr t :
+  Inv c g a tr -> Inv c g (upd_view a t (with_seen (view a t) (g_list g))) tr.
+Proof.
+  intros HI. apply inv_soft; try reflexivity; [exact HI| |].
+  - intros r H. exact H.
+  - intros sv H. cbn in H. apply (i_cov _ _ _ _ HI t sv H).
+Qed.
+
+Definition scan_view (v : lview) (sv : scanv) (seen : list nat) : lview :=
+  mkV (v_rec v) (v_held v) (v_clr v) (Some sv) (v_cl v) seen.
+
+(** generic: the scanning thread replaces its scan view by one whose coverage follows from the old one *)
+Lemma inv_scan_step c g a tr t sv sv' seen :
+  Inv c g a tr -> v_scan (view a t) = Some sv ->
+  (forall r, In r seen -> In r (g_list g)) ->
+  (forall s, last_sb tr t = Some s ->
+     (forall r j v, covered (cH c) sv r j -> v <> 0%Z -> held tr s r j v -> In v (sc_coll sv)) ->
+     (forall v, In v (sc_coll sv) -> seen_in tr s (List.length tr) v) ->
+     (forall r j v, covered (cH c) sv' r j -> v <> 0%Z -> held tr s r j v -> In v (sc_coll sv')) /\
+     (forall v, In v (sc_coll sv') -> seen_in tr s (List.length tr) v)) ->
+  Inv c g (upd_view a t (scan_view (view a t) sv' seen)) tr.
+Proof.
+  intros HI Hsv Hseen Hstep. apply inv_soft; try reflexivity; [exact HI|exact Hseen|].
+  intros sv0 H. cbn in H. inversion H; subst sv0.
+  destruct (i_cov _ _ _ _ HI t sv Hsv) as (s & Hs & Hcv & Hsn). exists s. split; [exact Hs|].
+  apply Hstep; assumption.
+Qed.
+
+Lemma held_slot c g a tr s r j v t : Inv c g a tr -> last_sb tr t = Some s -> held tr s r j v -> gslot g r j = v.
+Proof.
+  intros HI Hs Hh. rewrite <- (i_slot _ _ _ _ HI). eapply held_now; [|exact Hh].
+  pose proof (last_sb_lt _ _ _ Hs). lia.
+Qed.
+
+Definition pos_sv (H : nat) (coll : list Z) (r' : nat) (l' : list nat) (k : nat) : scanv :=
+  if Nat.ltb k H then mkScan coll (Some (r' :: l')) (Some (r', k)) else mkScan coll (Some l') None.
+
+Lemma pos_sv_coll H coll r' l' k : sc_coll (pos_sv H coll r' l' k) = coll.
+Proof. unfold pos_sv. destruct (Nat.ltb k H); reflexivity. Qed.
+
+Lemma covered_pos H coll r' l' k r j :
+  k <= H -> covered H (pos_sv H coll r' l' k) r j -> ~ In r (r' :: l') \/ (r = r' /\ (j < k \/ H <= j)).
+Proof.
+  intros Hk. unfold pos_sv. destruct (Nat.ltb_spec k H) as [Hlt|Hge]; unfold covered; cbn.
+  - intros [H1|(k0 & E & H2)]; [now left|]. inversion E; subst. right. auto.
+  - intros [H1|(k0 & E & _)]; [|discriminate]. destruct (Nat.eq_dec r r') as [->|Hne].
+    + right. split; [reflexivity|]. lia.
+    + left. intros [E|Hin]; [congruence|contradiction].
+Qed.
+
+(** thread_list_.load() at the beginning of stage 1 *)
+Lemma step_ld_head_scan c g a tr t coll :
+  Inv c g a tr -> v_scan (view a t) = Some (mkScan coll None None) ->
+  Inv c g (upd_view a t (scan_view (view a t) (mkScan coll (Some (g_list g)) None) (g_list g)))
+      (tr ++ Conc.tag t [EvAcc KLd obj_head true]).
+Proof.
+  intros HI Hsv. assert (HI' := inv_acc c g a tr t KLd obj_head true HI ltac:(discriminate)).
+  eapply inv_scan_step; [exact HI'|exact Hsv|auto|].
+  intros s Hs Hcv Hsn. split; [|exact Hsn].
+  intros r j v Hc Hv Hh. exfalso. apply Hv. rewrite <- (held_slot _ _ _ _ _ _ _ _ _ HI' Hs Hh).
+  unfold covered in Hc. cbn in Hc. destruct Hc as [Hc|(k & E & _)]; [|discriminate].
+  apply (i_zero_unlisted _ _ _ _ HI'). exact Hc.
+Qed.
+
+(** owner_rec_.load() of the next record *)
+Lemma step_ld_owner_scan c g a tr t coll r' l' seen :
+  Inv c g a tr -> v_scan (view a t) = Some (mkScan coll (Some (r' :: l')) None) -> v_seen (view a t) = seen ->
+  let sv' := if r_owner (get_rec g r') then pos_sv (cH c) coll r' l' 0 else mkScan coll (Some l') None in
+  Inv c g (upd_view a t (scan_view (view a t) sv' seen)) (tr ++ Conc.tag t [EvAcc KLd (obj_owner r') true]).
+Proof.
+  intros HI Hsv Hseen sv'. assert (HI' := inv_acc c g a tr t KLd (obj_owner r') true HI ltac:(discriminate)).
+  eapply inv_scan_step; [exact HI'|exact Hsv| |].
+  { intros r H. subst seen. apply (i_seen _ _ _ _ HI' t r H). }
+  intros s Hs Hcv Hsn. unfold sv'. destruct (r_owner (get_rec g r')) eqn:Eo.
+  - rewrite pos_sv_coll. split; [|exact Hsn].
+    intros r j v Hc Hv Hh. apply covered_pos in Hc; [|lia].
+    destruct Hc as [Hc|(-> & [Hc|Hc])]; [| lia |].
+    + apply (Hcv r j v); [|exact Hv|exact Hh]. unfold covered; cbn. now left.
+    + exfalso. apply Hv. rewrite <- (held_slot _ _ _ _ _ _ _ _ _ HI' Hs Hh). now apply (i_zero_hi _ _ _ _ HI').
+  - split; [|exact Hsn]. cbn.
+    intros r j v Hc Hv Hh. unfold covered in Hc; cbn in Hc. destruct Hc as [Hc|(k & E & _)]; [|discriminate].
+    destruct (Nat.eq_dec r r') as [->|Hne].
+    + exfalso. apply Hv. rewrite <- (held_slot _ _ _ _ _ _ _ _ _ HI' Hs Hh). now apply (i_zero_unowned _ _ _ _ HI').
+    + apply (Hcv r j v); [|exact Hv|exact Hh]. unfold covered; cbn. left. intros [E|Hin]; [congruence|contradiction].
+Qed.
+
+(** hazards_[k].load() *)
+Lemma step_ld_slot_scan c g a tr t coll r' l' k seen :
+  Inv c g a tr -> k < cH c ->
+  v_scan (view a t) = Some (mkScan coll (Some (r' :: l')) (Some (r', k))) -> v_seen (view a t) = seen ->
+  let v0 := gslot g r' k in
+  let coll' := if Z.eqb v0 0 then coll else coll ++ [v0] in
+  Inv c g (upd_view a t (scan_view (view a t) (pos_sv (cH c) coll' r' l' (S k)) seen))
+      (tr ++ Conc.tag t [EvAcc KLd (obj_slot r' k) true]).
+Proof.
+  intros HI Hk Hsv Hseen v0 coll'.
+  assert (HI' := inv_acc c g a tr t KLd (obj_slot r' k) true HI ltac:(discriminate)).
+  eapply inv_scan_step; [exact HI'|exact Hsv| |].
+  { intros r H. subst seen. apply (i_seen _ _ _ _ HI' t r H). }
+  intros s Hs Hcv Hsn. rewrite pos_sv_coll. cbn [sc_coll] in *.
+  assert (Hsub : forall v, In v coll -> In v coll').
+  { intros v H. unfold coll'. destruct (Z.eqb v0 0); [exact H|apply in_or_app; now left]. }
+  split.
+  - intros r j v Hc Hv Hh. apply covered_pos in Hc; [|lia].
+    assert (Hold : covered (cH c) (mkScan coll (Some (r' :: l')) (Some (r', k))) r j -> In v coll')
+      by (intros H; apply Hsub; apply (Hcv r j v H Hv Hh)).
+    destruct Hc as [Hc|(-> & [Hc|Hc])].
+    + apply Hold. unfold covered; cbn. now left.
+    + destruct (Nat.eq_dec j k) as [->|Hne].
+      * pose proof (held_slot _ _ _ _ _ _ _ _ _ HI' Hs Hh) as E. fold v0 in E. subst v.
+        unfold coll'. destruct (Z.eqb_spec v0 0); [contradiction|]. apply in_or_app. right. now left.
+      * apply Hold. unfold covered; cbn. right. exists k. split; [reflexivity|]. lia.
+    + apply Hold. unfold covered; cbn. right. exists k. split; [reflexivity|]. lia.
+  - intros v Hv. unfold coll' in Hv. destruct (Z.eqb_spec v0 0) as [E0|E0]; [now apply Hsn|].
+    apply in_app_or in Hv. destruct Hv as [Hv|[<-|[]]]; [now apply Hsn|].
+    pose proof (last_sb_lt _ _ _ Hs) as Hlt.
+    exists r', k, (List.length (tr ++ Conc.tag t [EvAcc KLd (obj_slot r' k) true])). split; [lia|].
+    rewrite firstn_all. apply (i_slot _ _ _ _ HI').
 Qed.
